@@ -452,7 +452,7 @@ def run(ctx):
         ops = g_program(rng, big, long_=parent, noisy=noisy)
         sk = skeleton(ops)
         r_sink = rng.random()
-        sink = "raw" if r_sink < 0.6 else "buffered" if r_sink < 0.8 else "pyfile:" + rng.choice(["ab", "a+b", "w+b", "r+b", "a", "a+", "wb"])
+        sink = "raw" if r_sink < 0.6 else "buffered" if r_sink < 0.8 else "pyfile:" + rng.choice(["ab", "a+b", "w+b", "r+b", "a", "a+", "wb", "a:write_through", "a:line_buffering", "w:write_through"])
         chunk = rng.choice([1, 7, 512, 4096, 65536]) if not big else rng.choice([4096, 65536, 1 << 20])
         if chunk < 512 and sum(1 for _ in sk) > 30:
             chunk = 4096
